@@ -247,8 +247,11 @@ func (p *Prog) SitesOf(target *ssa.Function) []Site {
 // callsIn lists the call instructions of fn whose possible callees include target.
 func (p *Prog) callsIn(fn *ssa.Function, target *ssa.Function) []ssa.CallInstruction {
 	var out []ssa.CallInstruction
+	if fn == nil || target == nil {
+		return nil
+	}
 	target = p.declared(target)
-	allInstrs(fn, func(in ssa.Instruction) {
+	p.allInstrsDeep(fn, func(in ssa.Instruction) {
 		ci, ok := in.(ssa.CallInstruction)
 		if !ok {
 			return
@@ -819,6 +822,12 @@ func reachableBlocks(b *ssa.BasicBlock, stop func(*ssa.BasicBlock) bool) map[*ss
 // canReach reports whether execution can proceed from just after instruction a to instruction b.
 func canReach(a, b ssa.Instruction) bool {
 	if a.Parent() != b.Parent() {
+		if lb := lift(b, a.Parent()); lb != nil && lb != b {
+			return lb == a || canReach(a, lb)
+		}
+		if la := lift(a, b.Parent()); la != nil && la != a {
+			return la == b || canReach(la, b)
+		}
 		return false
 	}
 	if a.Block() == b.Block() && instrIndex(a) < instrIndex(b) {
@@ -887,6 +896,13 @@ func pathFromEntry(fn *ssa.Function, visit func(ssa.Instruction) bool) []ssa.Ins
 // dominatesInstr: a executes before b on every path that reaches b.
 func dominatesInstr(a, b ssa.Instruction) bool {
 	if a.Parent() != b.Parent() {
+		// one of them sits in a helper of the other's function: compare at the call site
+		if lb := lift(b, a.Parent()); lb != nil && lb != b {
+			return lb == a || dominatesInstr(a, lb)
+		}
+		if la := lift(a, b.Parent()); la != nil && la != a {
+			return onEveryPath(a) && (la == b || dominatesInstr(la, b))
+		}
 		return false
 	}
 	if a.Block() == b.Block() {
